@@ -37,10 +37,10 @@ def gen_create(r, a):
     if t == "bal":
         mag = r.choice([10 ** 6, 10 ** 8, 10 ** 10, 10 ** 12])
         return {"k": "create", "a": a, "t": "bal", "d": ds, "amt": [str(r.range(mag, 20 * mag)) for _ in ds],
-                "w": [r.choice([1, 1, 2, 3, 10, 50, r.range(1, 1000)]) for _ in ds],
-                "spread": r.choice(["0", "0.001", "0.003", "0.01", "0.0025", "0.000123"])}
+                "w": [r.choice([1, 1, 2, 3, 10, 50, r.range(1, 1000), 1048575, r.range(1, 1048575)]) for _ in ds],
+                "spread": r.choice(["0", "0.001", "0.003", "0.01", "0.0025", "0.000123", "0.5", "0.99"])}
     mag = r.choice([10 ** 7, 10 ** 9, 10 ** 10])
-    sf = [1] * n if r.chance(2, 3) else [r.choice([1, 2, 10]) for _ in ds]
+    sf = [1] * n if r.chance(2, 3) else [r.choice([1, 2, 10, 1000, 10 ** 6]) for _ in ds]
     return {"k": "create", "a": a, "t": "ss", "d": ds, "amt": [str(r.range(mag, 2 * mag) * f) for f in sf], "sf": sf,
             "spread": r.choice(["0", "0.0003", "0.001", "0.003"])}
 
